@@ -106,12 +106,8 @@ fn start_server(ctx: &Ctx, out: &mut Out, cfg0: &SrvCfg, tag: &str, pin: Option<
     for _ in 0..3 {
         let mut cfg = cfg0.clone();
         cfg.port = free_port(false);
-        let sp = if let Some(cpus) = pin {
-            // same as spawn_server, but under taskset so that every thread inherits the CPU set
-            spawn_pinned(&ctx.bins, &cfg, &ctx.scratch, tag, cpus)
-        } else {
-            spawn_server(&ctx.bins, &cfg, &ctx.scratch, tag, None)
-        };
+        cfg.pin = pin.map(|s| s.to_string());
+        let sp = spawn_server(&ctx.bins, &cfg, &ctx.scratch, tag, None);
         if let Ok(mut sp) = sp {
             if sp.wait_ready(&pk, Duration::from_secs(10)).is_ok() {
                 // let the remaining workers come up
@@ -122,23 +118,6 @@ fn start_server(ctx: &Ctx, out: &mut Out, cfg0: &SrvCfg, tag: &str, pin: Option<
     }
     out.inconclusive("real server did not become ready");
     None
-}
-
-fn spawn_pinned(bins: &std::path::Path, cfg: &SrvCfg, dir: &std::path::Path, tag: &str, cpus: &str) -> std::io::Result<ServerProc> {
-    std::fs::create_dir_all(dir)?;
-    let path = dir.join(format!("{}.cfg", tag));
-    let mut txt = String::new();
-    for (k, v) in cfg.pairs() {
-        txt.push_str(&format!("{}: {}\n", k, v));
-    }
-    std::fs::write(&path, txt)?;
-    let out_path = dir.join(format!("{}.stdout", tag));
-    let err_path = dir.join(format!("{}.stderr", tag));
-    let mut cmd = Command::new("taskset");
-    cmd.arg("-c").arg(cpus).arg(bins.join("roughenough-server")).arg(&path);
-    cmd.stdin(std::process::Stdio::null()).stdout(std::fs::File::create(&out_path)?).stderr(std::fs::File::create(&err_path)?);
-    let child = cmd.spawn()?;
-    Ok(ServerProc { child, cfg: cfg.clone(), out_path, err_path, started: Instant::now() })
 }
 
 fn c18_round(ctx: &Ctx, out: &mut Out, rng: &mut Rng, k: u64) {
@@ -167,8 +146,33 @@ fn c18_round(ctx: &Ctx, out: &mut Out, rng: &mut Rng, k: u64) {
         cfg.status_interval = Some(1);
         out.obs("rounds_with_client_stats", 1);
     }
+    // every fifth round: a health-check port, polled by two clients for the whole round
+    let health_round = k % 5 == 2;
+    if health_round {
+        cfg.health_check_port = Some(free_port(true));
+        out.obs("rounds_with_health_clients", 1);
+    }
     let Some(mut sp) = start_server(ctx, out, &cfg, &format!("c18-{}", k), pin) else { return };
     let port = sp.cfg.port;
+    let health_stop = Arc::new(AtomicBool::new(false));
+    let health_threads: Vec<_> = match sp.cfg.health_check_port {
+        Some(hp) if health_round => (0..2)
+            .map(|_| {
+                let st = health_stop.clone();
+                std::thread::spawn(move || {
+                    let (mut ok, mut bad) = (0u64, 0u64);
+                    while !st.load(Ordering::Relaxed) {
+                        match crate::c15::health_once(hp, Duration::from_secs(3)) {
+                            Ok(r) if r.starts_with("HTTP/1.1 200") => ok += 1,
+                            _ => bad += 1,
+                        }
+                    }
+                    (ok, bad)
+                })
+            })
+            .collect(),
+        _ => Vec::new(),
+    };
     let drops0 = udp_drops(port).unwrap_or(0);
     let per_client = if ctx.thorough { rng.range(50, 500) as usize } else { rng.range(50, 200) as usize };
     let per_client = if nclients >= 64 { per_client.min(120) } else { per_client };
@@ -232,7 +236,17 @@ fn c18_round(ctx: &Ctx, out: &mut Out, rng: &mut Rng, k: u64) {
             std::thread::sleep(Duration::from_millis(5));
             out.obs("burst_phases_with_server_frozen", 1);
         }
-        for j in 0..80 {
+        // every fourth round the burst is preceded by batch_size tiny datagrams the server must
+        // drop (one whole batch without a single valid request)
+        let junk = if k % 4 == 1 { cfg.batch_size.unwrap_or(64) as usize } else { 0 };
+        for _ in 0..junk {
+            let _ = sock.send_to(&brng.rbytes(1, 24), addr);
+        }
+        if junk > 0 {
+            out.obs("burst_phases_with_junk_prefix", 1);
+        }
+        let nvalid = if junk >= 32 { 60 } else { 80 };
+        for j in 0..nvalid {
             let proto = if j % 2 == 0 { Proto::Classic } else { Proto::Ietf };
             let nonce = brng.bytes(proto.nonce_len());
             let pkt = match proto {
@@ -268,6 +282,13 @@ fn c18_round(ctx: &Ctx, out: &mut Out, rng: &mut Rng, k: u64) {
         out.obs("burst_phases", 1);
         pending.len()
     };
+    health_stop.store(true, Ordering::Relaxed);
+    let mut health_bad = 0u64;
+    for h in health_threads {
+        let (ok, bad) = h.join().unwrap_or((0, 0));
+        out.obs("health_checks_during_load_ok", ok as i64);
+        health_bad += bad;
+    }
     let drops1 = udp_drops(port).unwrap_or(0);
     let desc = json!({"kind":"load-round","round":k,"num_workers":nworkers,"clients":nclients,"requests_per_client":per_client,"pin":pin,"batch_size":cfg.batch_size,"source": if cfg.via_env {"ENV"} else {"file"}});
     // ---- offline check of the recorded history
@@ -300,13 +321,16 @@ fn c18_round(ctx: &Ctx, out: &mut Out, rng: &mut Rng, k: u64) {
         }
     }
     out.obs("replies_verified", verified as i64);
+    if health_bad > 0 {
+        out.violation("C18 health-check-unanswered-under-load", &format!("{} health-check connections were not answered with HTTP 200 within 3 s during the round", health_bad), desc.clone());
+    }
     if burst_missing > 0 {
         if drops1 != drops0 {
             out.inconclusive("kernel drop counter moved");
         } else {
             out.violation(
                 &format!("C18 burst requests-unanswered batch_size={}", if cfg.batch_size == Some(1) { "1" } else { ">1" }),
-                &format!("{} of 80 requests sent back to back from one socket to a quiet server were not answered within 2.5 s of silence, and the kernel dropped nothing ({} workers, batch_size {:?})", burst_missing, nworkers, cfg.batch_size),
+                &format!("{} requests sent back to back from one socket to a quiet server were not answered within 2.5 s of silence, and the kernel dropped nothing ({} workers, batch_size {:?})", burst_missing, nworkers, cfg.batch_size),
                 desc.clone(),
             );
         }
@@ -443,6 +467,9 @@ fn c19_run_phase(ctx: &Ctx, out: &mut Out, rng: &mut Rng, k: u64, force: Option<
         }
         Phase::Flood => {
             let nsend = rng.range(2, 12) as usize;
+            // what the flood is made of: a mix, or only one kind of datagram
+            let flood_kind = k % 4;
+            out.obs(&format!("flood_kind_{}", ["mixed", "classic-only", "ietf-only", "invalid-only"][flood_kind as usize]), 1);
             for i in 0..nsend {
                 let (stop, sent, srv) = (stop.clone(), sent.clone(), srv.clone());
                 let s = rng.next_u64();
@@ -453,7 +480,24 @@ fn c19_run_phase(ctx: &Ctx, out: &mut Out, rng: &mut Rng, k: u64, force: Option<
                     let addr: SocketAddr = format!("127.0.0.1:{}", port).parse().unwrap();
                     // mostly valid requests, some datagrams the server must drop
                     let pkts: Vec<Vec<u8>> = (0..32)
-                        .map(|j| if j % 8 == 7 { crate::dgen::hostile(&mut rng, &srv).data } else { make_request(&mut rng, if j % 2 == 0 { Proto::Classic } else { Proto::Ietf }, Some(&srv)).0 })
+                        .map(|j| match flood_kind {
+                            1 => make_request(&mut rng, Proto::Classic, None).0,
+                            2 => make_request(&mut rng, Proto::Ietf, Some(&srv)).0,
+                            3 => {
+                                let mut d = crate::dgen::hostile(&mut rng, &srv).data;
+                                if crate::refimpl::req::expectation(&d, &srv).0 != crate::refimpl::req::Expect::MustNot {
+                                    d.truncate(40);
+                                }
+                                d
+                            }
+                            _ => {
+                                if j % 8 == 7 {
+                                    crate::dgen::hostile(&mut rng, &srv).data
+                                } else {
+                                    make_request(&mut rng, if j % 2 == 0 { Proto::Classic } else { Proto::Ietf }, Some(&srv)).0
+                                }
+                            }
+                        })
                         .collect();
                     let mut buf = vec![0u8; 4096];
                     let mut n = 0u64;
